@@ -117,6 +117,52 @@ def real_queries(models, pairs, want_adj=False, validate_sets=()):
     return out, adj, val
 
 
+def incremental_registration(c, graphs):
+    """models registered one by one with path lookups in between: every answer must equal the answer of a graph built afresh from the models
+    registered so far (a lookup before a junction / target model exists must not freeze the adjacency)"""
+    from sidemantic import Model, Relationship
+    from sidemantic.core.semantic_graph import SemanticGraph
+    n = 0
+    def ask(g, a, b):
+        try:
+            p = g.find_relationship_path(a, b)
+            return "P:" + ";".join(show_hop(h.from_model, h.to_model, h.from_columns, h.to_columns, h.relationship) for h in p)
+        except ValueError:
+            return "NOPATH"
+        except KeyError:
+            return "KEYERR"
+    # targeted family: a many_to_many through a junction model that has no relationships of its own and is registered LAST
+    targeted = []
+    for k in range(12):
+        extra = [dict(name="md", pk="s:id", rels=[dict(name="ma", type="many_to_one", fk="-", pk="-", through="-", tfk="-", rfk="-")])] if k % 2 else []
+        fk = "s:mb_fk" if k % 3 == 0 else "-"
+        targeted.append(("fixed", [dict(name="ma", pk="s:id", rels=[dict(name="mb", type="many_to_many", fk=fk, pk="-", through="mj", tfk="ma_id", rfk="mb_id")]),
+                                   dict(name="mb", pk="s:id", rels=[])] + extra + [dict(name="mj", pk="s:id", rels=[])]))
+    for item in targeted + [("shuffled", m) for m in graphs]:
+        mode, models = item
+        order = list(models)
+        if mode == "shuffled":
+            c.rng.shuffle(order)
+        g = SemanticGraph()
+        for i, m in enumerate(order):
+            rels = [Relationship(name=r["name"], type=r["type"], foreign_key=pykey(r["fk"]), primary_key=pykey(r["pk"]),
+                                 through=opt(r["through"]), through_foreign_key=opt(r["tfk"]), related_foreign_key=opt(r["rfk"])) for r in m["rels"]]
+            g.add_model(Model(name=m["name"], table=m["name"], primary_key=pykey(m["pk"]), relationships=rels))
+            names = [x["name"] for x in order[:i + 1]]
+            if len(names) < 2:
+                continue
+            fresh = real_graph(order[:i + 1])
+            for _ in range(3):
+                a, b = c.rng.sample(names, 2)
+                n += 1
+                got, want = ask(g, a, b), ask(fresh, a, b)
+                if got != want:
+                    c.violation("a path lookup after registering models one by one differs from the same lookup on a freshly built graph (%s -> %s)" % (a, b),
+                                {"kind": "incremental", "models": order[:i + 1], "pair": [a, b], "incremental": got, "fresh": want})
+                    break
+    return n
+
+
 def _validate_pairs(g, ms):
     """the join-path part of validate_query, observed through its error messages (pairs are unordered there: a set is iterated)"""
     from sidemantic import Dimension  # noqa
@@ -383,6 +429,13 @@ def run(c):
     if c.tier == "thorough":
         exhaustive = exhaustive_4(c, exe)
         evals += 117649 * 12
+    # incremental registration: lookups interleaved with add_model must agree with a freshly built graph
+    try:
+        n_inc = incremental_registration(c, [gen_graph(rnd) for _ in range(60 if c.tier == "quick" else 600)])
+        c.obligation("history: %d path lookups interleaved with model registration == lookups on a freshly built graph" % n_inc, not any(v["what"].startswith("a path lookup after registering") for v in c.violations), "correspondence")
+        evals += n_inc
+    except Exception as e:
+        c.obligation("history: incremental registration", False, "correspondence", repr(e)[-600:])
     c.coverage.update({"evaluations": evals, "distinct_nontrivial": len(multi), "rule": "random labelled graphs of 2-6 models (every relationship type, str/list/None keys, explicit primary keys, junctions, unknown targets); "
                        "all ordered pairs incl. an unknown name; non-trivial = distinct multi-hop path returned by the implementation",
                        "traces_validated_against_impl": n_graphs, "outcome_kinds": kinds, "exhaustive": exhaustive})
